@@ -70,3 +70,16 @@ let ios = int_of_string
 exception Bad_op of string
 let ops : (string, string list -> string) Hashtbl.t = Hashtbl.create 64
 let reg name f = Hashtbl.replace ops name f
+(* the same input is usually evaluated for several entry points in a row: remember the answers of
+   an op keyed by its first [n] arguments (the remaining arguments are labels) *)
+let reg_memo n name f =
+  let cache : (string, string) Hashtbl.t = Hashtbl.create 64 in
+  let rec firstn k l = if k = 0 then [] else match l with [] -> [] | x :: r -> x :: firstn (k - 1) r in
+  Hashtbl.replace ops name (fun args ->
+      let key = String.concat "\t" (firstn n args) in
+      match Hashtbl.find_opt cache key with
+      | Some r -> r
+      | None ->
+        let r = f args in
+        if Hashtbl.length cache > 256 then Hashtbl.reset cache;
+        Hashtbl.replace cache key r; r)
